@@ -482,7 +482,7 @@ class World:
 # ---- generation -----------------------------------------------------------------------------------
 
 # (the last entries carry regex escapes that a JSON-style unescaping of the quoted text would change: \b, \\, \d ...)
-REGEX_POOL = ["x\\b", "\\bq", "q\\b", "\\d+", "\\w+$", "\\s*x", "a\\\\b", "[^\\\\]+$", "(x)\\1", "\\.", ".*", "x", "q", "[a-z]+", "1", "[0-9]+$", "", "L+A$", "^q", ".", "None", "\\(", "é", "a b", "a  b", "a\tb", ".* x", ".*  x", "q .*"]
+REGEX_POOL = ["qz?", "xy*", "x{0,2}q", "10?", "tx?rue", "Tr?ue", "No?ne", "x\\b", "\\bq", "q\\b", "\\d+", "\\w+$", "\\s*x", "a\\\\b", "[^\\\\]+$", "(x)\\1", "\\.", ".*", "x", "q", "[a-z]+", "1", "[0-9]+$", "", "L+A$", "^q", ".", "None", "\\(", "é", "a b", "a  b", "a\tb", ".* x", ".*  x", "q .*"]
 
 
 class Gen:
@@ -504,6 +504,11 @@ class Gen:
             # end-anchored numeric regexes: the same text is then met by ==-equal values that print differently
             # (1, 1.0, True)
             return self.r("re").choice(["[0-9]+$", "1$", "[01]$", "0$", "-?[0-9]+$", "True", "1"])
+        if isinstance(val, str) and val and self.r("re").random() < 0.15:
+            # the value followed by an OPTIONAL extra character / with its last character made optional or repeated
+            q = self.r("re").choice(["?", "*", "{0,2}"])
+            body = re.escape(val).replace('"', ".")
+            return body + self.r("re").choice(["z", "0", "_"]) + q if self.r("re").random() < 0.6 or len(val) < 2 else re.escape(val[:-1]).replace('"', ".") + re.escape(val[-1]).replace('"', ".") + q + ("" if q != "?" else re.escape(val[-1]).replace('"', "."))
         return self._regex_for(val)
 
     def _regex_for(self, val: Any) -> str:
